@@ -45,7 +45,7 @@ SHRINK_LISTS = ("msgs",)
 
 
 def budget(tier):
-    return 2500 if tier == "quick" else 150_000
+    return 6000 if tier == "quick" else 150_000
 
 
 def wall(tier):
